@@ -82,6 +82,9 @@ Features == {
   F("rp_post_returns_body", 20, 39),
   F("ac_member_of", 21, 39), F("ac_forbidden_trait", 22, 39), F("rp_list_forbidden_trait", 22, 39),
   F("error_code", 23, 39),
+  F("error_code_concurrent_update", 23, 39), F("error_code_duplicate_name", 23, 39),
+  F("error_code_duplicate_name_on_update", 23, 39), F("error_code_inventory_inuse", 23, 39),
+  F("error_code_cannot_delete_parent", 23, 39), F("error_code_provider_inuse", 23, 39),
   F("rp_list_repeated_member_of", 24, 39),
   F("ac_granular", 25, 39),
   F("inv_reserved_equals_total", 26, 39),
